@@ -117,6 +117,10 @@ def build(case: dict[str, Any], d: Path, job: dict[str, Any]) -> Any:
         post_hook=f"/bin/sh {job['hook']} {d / 'hook.log'} {1 if fail_post else 0}",
         inject=json.dumps(inj, sort_keys=True) if inj else "",
     )
+    if c["point"] == "PreHook" and c["how"] == "CtrlC":
+        # Ctrl-C while the pre-hook is running: the hook does its normal work, tells the parent, then lingers
+        kw["pre_hook"] = f"/bin/sh {job['hook']} {d / 'hook.log'} 0 && echo ready > {case['sync']} && sleep 1.5"
+        kw["inject"] = ""
     if case.get("mutant") == "post-hook-removes-meta":  # binding self-test of the harness (see c15.selftest)
         kw["post_hook"] = 'rm -f "$GALLIA_ARTIFACTS_DIR/META.json"'
     cls = c15_cmds.CLASSES[c["kind"]]
